@@ -2,6 +2,7 @@ package main
 
 import (
 	"encoding/binary"
+	"runtime"
 	"strconv"
 	"strings"
 	"sync"
@@ -229,6 +230,12 @@ func kaliasReads(r *rng) {
 // *its* directory (the backend names each entry after the handle it was asked on).
 func kaliasReaddirs(r *rng) {
 	nc := 2 + r.intn(3)
+	// half of the runs on a single P: whatever one reply leaves in a per-P cache (sync.Pool) is what the
+	// next reply built on that P picks up
+	if r.chance(1, 2) {
+		old := runtime.GOMAXPROCS(1)
+		defer runtime.GOMAXPROCS(old)
+	}
 	s := newK7(r, nc)
 	s.be.direntsByH = true
 	s.be.manyDirents = 150
@@ -237,7 +244,7 @@ func kaliasReaddirs(r *rng) {
 		hs[c] = s.walk(c, 0, 1, p9.ModeDirectory|0755, "dir"+string(rune('a'+c)))
 		s.call(c, 12, map[string]interface{}{"fid": uint64(1), "Flags": uint64(0)})
 	}
-	rounds := 25 + r.intn(15)
+	rounds := 70 + r.intn(30) // more reply bytes per connection than its socket buffers hold
 	for k := 0; k < rounds; k++ {
 		for c := 0; c < nc; c++ {
 			s.send(c, 40, map[string]interface{}{"Directory": uint64(1), "Offset": uint64(k), "Count": uint64(7000 + r.intn(1000))})
